@@ -14,8 +14,12 @@
 From Verif Require Import Common.
 
 (* a binding context: [c_tag] identifies it (binding name etc.), [c_group] is
-   Metadata.Group with 0 standing for the empty string *)
-Record ctx := mkCtx { c_tag : N; c_group : N }.
+   Metadata.Group with 0 standing for the empty string, [c_sync] is BindingContext.IsSynchronization():
+   Metadata.BindingType == OnKubernetesEvent && Type == Synchronization (part 3: the task
+   handler looks at it; the function of parts 1 and 2 never does) *)
+Record ctx := mkCtxK { c_tag : N; c_group : N; c_sync : bool }.
+(* a context that is not a Synchronization (schedule, kubernetes Event, admission, ...) *)
+Definition mkCtx (tag group : N) : ctx := mkCtxK tag group false.
 
 (* a queued task.  [t_meta = false] is a task whose GetMetadata() is nil (the other
    metadata fields are then meaningless).  [t_ty] is GetType().  [t_qn] is GetQueueName(),
@@ -25,8 +29,16 @@ Record ctx := mkCtx { c_tag : N; c_group : N }.
    queue set).  Tasks normally carry the name of the queue they sit in; the bootstrap tasks
    sit in "main" and carry "", the tasks of the admission / conversion webhook handlers
    carry "" and sit in no queue. *)
-Record task := mkTask {
-  t_id : N; t_hook : N; t_ty : N; t_meta : bool; t_ctxs : list ctx; t_mids : list N; t_qn : N }.
+Record task := mkTaskK {
+  t_id : N; t_hook : N; t_ty : N; t_meta : bool; t_ctxs : list ctx; t_mids : list N; t_qn : N;
+  (* three more fields of HookMetadata, read by the task handler only (part 3):
+     [t_kube] BindingType == OnKubernetesEvent, [t_group] HookMetadata.Group (0 = ""),
+     [t_exec] ExecuteOnSynchronization (set from the binding's executeHookOnSynchronization by
+     taskHandleEnableKubernetesBindings; false in every task built elsewhere) *)
+  t_kube : bool; t_group : N; t_exec : bool }.
+(* a task that is not of a kubernetes binding *)
+Definition mkTask (id hook ty : N) (meta : bool) (cs : list ctx) (mids : list N) (qn : N) : task :=
+  mkTaskK id hook ty meta cs mids qn false 0 false.
 
 Record result := mkResult { r_ctxs : list ctx; r_mids : list N }.
 (* Not modelled: the field CombineResult.AllowFailure (commit b66e651: false iff some
@@ -225,12 +237,39 @@ Definition run_set (i : sinput) : sobs :=
    and call op.taskHandler(task) synchronously, from the HTTP handler's goroutine, while the
    queues hold whatever they hold.
 
-   Scope of this part: hooks with configVersion v1 and HookRun tasks whose contexts are not
-   an ungrouped kubernetes Synchronization, so the gate [should_combine] is open and
-   stopCombineFn is nil (the cases the harness drives: schedule, onStartup-like, admission
-   and conversion contexts).  Task types: 0 = HookRun; any other type is handled by another
-   branch of taskHandler that never runs a hook and never combines (the harness uses
-   EnableScheduleBindings). *)
+   taskHandleHookRun decides FIRST whether the hook is to be run at all and only then combines:
+
+       isSynchronization := hookMeta.IsSynchronization()
+       shouldRunHook := true
+       if isSynchronization {
+           if taskHook.Config.Version == "v0" { shouldRunHook = false }
+           if !hookMeta.ExecuteOnSynchronization { shouldRunHook = false }
+       }
+       if shouldRunHook && taskHook.Config.Version == "v1" {
+           shouldCombine := true
+           if hookMeta.BindingType == OnKubernetesEvent {
+               if hookMeta.BindingContext[0].Type == TypeSynchronization && hookMeta.Group == "" { shouldCombine = false }
+           }
+           if shouldCombine {
+               var stopCombineFn func(tsk) bool
+               if isSynchronization { stopCombineFn = tsk is a Synchronization && !ExecuteOnSynchronization }
+               combineResult := op.combineBindingContextForHook(tqs, tqs.GetByName(t.GetQueueName()), t, stopCombineFn)
+               if combineResult != nil { BindingContext, MonitorIDs = ...; t.UpdateMetadata(hookMeta) }
+           }
+       }
+       res.Status = "Success"                              -- default when shouldRunHook is false
+       if shouldRunHook { run the hook; Fail on a non-zero exit }
+       if Success: unlock the monitors of hookMeta.MonitorIDs
+
+   A head that is not executed (a Synchronization of a v0 hook, or of a binding with
+   executeHookOnSynchronization: false) never reaches the combiner: it leaves the queue alone.
+
+   Scope of this part: HookRun tasks with metadata; a task with BindingType kubernetes has at least one
+   binding context (BindingContext[0] is read); the Type field is set in kubernetes contexts only, so
+   "BindingContext[0].Type == Synchronization" is [c_sync] of the first context; AllowFailure is false
+   (a failing run is a Fail, property C04 deals with the other case).  Task types: 0 = HookRun; any other
+   type is handled by another branch of taskHandler that never runs a hook and never combines (the
+   harness uses EnableScheduleBindings). *)
 
 (* one step of a session *)
 Inductive ostep :=
@@ -244,15 +283,41 @@ Record orun := mkRun { ru_hook : N; ru_ctxs : list ctx }.
 (* what a step did: executions, the handler's status is Success, the queue set afterwards *)
 Record ostepobs := mkSO { st_runs : list orun; st_success : bool; st_state : qset }.
 
-(* taskHandleHookRun up to the hook execution: combine through the lookup, then
-   hookMeta.BindingContext / MonitorIDs = the result and t.UpdateMetadata(hookMeta) (when there
-   is a result); returns the execution, the task's metadata afterwards, the queue set *)
-Definition handle_hook_run (t : task) (qs : qset) : orun * task * qset :=
-  let p := combine_set (fun _ => false) t qs [] in
-  (mkRun (t_hook t) (delivered_ctxs t (fst p)),
-   mkTask (t_id t) (t_hook t) (t_ty t) (t_meta t)
-          (delivered_ctxs t (fst p)) (delivered_mids t (fst p)) (t_qn t),
-   snd p).
+(* HookMetadata.IsSynchronization(): "Synchronization binding contexts are not combined with others,
+   so check the first item is enough" *)
+Definition is_sync (t : task) : bool :=
+  match t_ctxs t with c :: _ => c_sync c | [] => false end.
+
+(* shouldRunHook; [v0]: the hook's config version is v0 *)
+Definition should_run (v0 : bool) (t : task) : bool :=
+  negb (is_sync t && (v0 || negb (t_exec t))).
+
+(* stopCombineFn: nil unless the head is a Synchronization *)
+Definition stop_combine (t : task) : task -> bool :=
+  if is_sync t then (fun tsk => is_sync tsk && negb (t_exec tsk)) else (fun _ => false).
+
+(* whether the combiner is called at all *)
+Definition gate (v0 : bool) (t : task) : bool :=
+  should_combine (should_run v0 t) (negb v0) (t_kube t) (is_sync t) (t_group t).
+
+(* hookMeta.BindingContext / MonitorIDs = ...; t.UpdateMetadata(hookMeta) *)
+Definition set_combined (t : task) (cs : list ctx) (ms : list N) : task :=
+  mkTaskK (t_id t) (t_hook t) (t_ty t) (t_meta t) cs ms (t_qn t) (t_kube t) (t_group t) (t_exec t).
+
+(* taskHandleHookRun up to the hook execution; returns the executions (none when the hook is not to
+   be run), the task's metadata afterwards, the queue set *)
+Definition handle_hook_run (v0 : bool) (t : task) (qs : qset) : list orun * task * qset :=
+  if gate v0 t then
+    let p := combine_set (stop_combine t) t qs [] in
+    ([mkRun (t_hook t) (delivered_ctxs t (fst p))],
+     set_combined t (delivered_ctxs t (fst p)) (delivered_mids t (fst p)),
+     snd p)
+  else
+    ((if should_run v0 t then [mkRun (t_hook t) (t_ctxs t)] else []), t, qs).
+
+(* the handler's status: Success when nothing was run, otherwise by the exit code *)
+Definition status_ok (runs : list orun) (ok : bool) : bool :=
+  match runs with [] => true | _ :: _ => ok end.
 
 (* q.remove(id): the first task with that id *)
 Fixpoint remove_id (id : N) (q : list task) : list task :=
@@ -267,31 +332,33 @@ Fixpoint replace_id (t' : task) (q : list task) : list task :=
   | x :: r => if N.eqb (t_id x) (t_id t') then t' :: r else x :: replace_id t' r
   end.
 
-Definition model_step (qs : qset) (st : ostep) : ostepobs :=
+(* [v0s]: the hooks whose config version is v0 *)
+Definition model_step (v0s : list N) (qs : qset) (st : ostep) : ostepobs :=
   match st with
   | SHead qn ok =>
       match get_by_name qn qs with
       | Some (t :: rest) =>
           if N.eqb (t_ty t) 0 then
-            let h := handle_hook_run t qs in
+            let h := handle_hook_run (mem_N (t_hook t) v0s) t qs in
             let q' := match get_by_name qn (snd h) with Some q' => q' | None => [] end in
+            let success := status_ok (fst (fst h)) ok in
             (* Success: the worker removes the task by id; Fail: it stays, with the metadata
                the handler stored, and is retried after the back-off delay *)
-            mkSO [fst (fst h)] ok
-                 (set_queue qn (if ok then remove_id (t_id t) q' else replace_id (snd (fst h)) q') (snd h))
+            mkSO (fst (fst h)) success
+                 (set_queue qn (if success then remove_id (t_id t) q' else replace_id (snd (fst h)) q') (snd h))
           else
             mkSO [] true (set_queue qn (remove_id (t_id t) (t :: rest)) qs)
       | _ => mkSO [] true qs                       (* waitForTask: nothing to handle *)
       end
   | SLoose t ok =>
-      let h := handle_hook_run t qs in
-      mkSO [fst (fst h)] ok (snd h)                (* nobody removes anything: the task is in no queue *)
+      let h := handle_hook_run (mem_N (t_hook t) v0s) t qs in
+      mkSO (fst (fst h)) (status_ok (fst (fst h)) ok) (snd h)   (* nobody removes anything: the task is in no queue *)
   end.
 
-Fixpoint run_session (qs : qset) (steps : list ostep) : list ostepobs :=
+Fixpoint run_session (v0s : list N) (qs : qset) (steps : list ostep) : list ostepobs :=
   match steps with
   | [] => []
-  | st :: r => let o := model_step qs st in o :: run_session (st_state o) r
+  | st :: r => let o := model_step v0s qs st in o :: run_session v0s (st_state o) r
   end.
 
-Record oinput := mkOIn { oi_qs : qset; oi_steps : list ostep }.
+Record oinput := mkOIn { oi_v0 : list N; oi_qs : qset; oi_steps : list ostep }.
